@@ -272,12 +272,10 @@ def check(run: Run, ctx) -> None:
 
 
 def corr(run: Run, ctx) -> None:
-    """Correspondence of the modelled mechanisms (filled in when Pog.Props.C01 lands)."""
-    try:
-        from . import C01_corr
-    except ImportError:
-        return
-    C01_corr.run(run, ctx)
+    """Correspondence of the modelled mechanisms: relative imports (refereed by importlib.util.resolve_name), annotation
+    formatting (refereed by eval), alias coverage."""
+    from . import _generic as g
+    g.run_corr(run, ctx, "vf.corr.c01", "Imports/Annot/AliasCover", quick=0.5, thorough=4.0)
 
 
 def search(run: Run, ctx) -> None:
